@@ -27,6 +27,7 @@ import (
 )
 
 type duckEnv struct {
+	c    *vh.Ctx
 	root string
 	db   *database.DuckDB
 	app  *fiber.App
@@ -82,13 +83,17 @@ func duckExprs() []sqlExpr {
 		{"uhugeint", func(k int) string {
 			return fmt.Sprintf("CASE i %% 3 WHEN 0 THEN 340282366920938463463374607431768211455::UHUGEINT WHEN 1 THEN %s::UHUGEINT ELSE %s::UHUGEINT * %s::UHUGEINT END", h(k), h(k), h(k+1))
 		}},
-		{"decimal", func(k int) string { return fmt.Sprintf("(((%s %% 2000001)::BIGINT - 1000000) * 0.001)::DECIMAL(12,3)", h(k)) }},
+		{"decimal", func(k int) string {
+			return fmt.Sprintf("(((%s %% 2000001)::BIGINT - 1000000) * 0.001)::DECIMAL(12,3)", h(k))
+		}},
 		{"decimal", func(k int) string { return fmt.Sprintf("((%s %% 1000000)::BIGINT)::DECIMAL(9,0)", h(k)) }},
 		{"decimal", func(k int) string { // > 2^53: float64 cannot carry it
 			return fmt.Sprintf("(((%s >> 2)::BIGINT)::DECIMAL(38,0) * 0.01)::DECIMAL(38,2)", h(k))
 		}},
 		{"decimal", func(k int) string { return fmt.Sprintf("sum((%s %% 1000)::INTEGER) OVER (ORDER BY i)", h(k)) }},
-		{"float64", func(k int) string { return fmt.Sprintf("avg((%s %% 1000)::DECIMAL(9,2)) OVER (ORDER BY i ROWS 3 PRECEDING)", h(k)) }},
+		{"float64", func(k int) string {
+			return fmt.Sprintf("avg((%s %% 1000)::DECIMAL(9,2)) OVER (ORDER BY i ROWS 3 PRECEDING)", h(k))
+		}},
 		{"float32", func(k int) string {
 			return fmt.Sprintf("CASE i %% 9 WHEN 0 THEN 'nan'::FLOAT WHEN 1 THEN 'inf'::FLOAT WHEN 2 THEN '-inf'::FLOAT WHEN 3 THEN '-0'::FLOAT WHEN 4 THEN 0.1::FLOAT ELSE ((%s %% 2000000)::BIGINT - 1000000)::FLOAT / 1024 END", h(k))
 		}},
@@ -102,7 +107,9 @@ func duckExprs() []sqlExpr {
 		{"binary", func(k int) string {
 			return fmt.Sprintf("CASE i %% 4 WHEN 0 THEN ''::BLOB WHEN 1 THEN encode('é\"' || i::VARCHAR) WHEN 2 THEN unhex(lpad(to_hex(%s), 16, '0')) ELSE unhex(repeat(lpad(to_hex(%s %% 256), 2, '0'), (i %% 300)::INTEGER)) END", h(k), h(k))
 		}},
-		{"date32", func(k int) string { return fmt.Sprintf("(DATE '1970-01-01' + ((%s %% 200000)::INTEGER - 100000))", h(k)) }},
+		{"date32", func(k int) string {
+			return fmt.Sprintf("(DATE '1970-01-01' + ((%s %% 200000)::INTEGER - 100000))", h(k))
+		}},
 		{"timestamp[us]", func(k int) string {
 			return fmt.Sprintf("make_timestamp(((%s %% 8000000000000000)::BIGINT - 4000000000000000))", h(k))
 		}},
@@ -121,7 +128,9 @@ func duckExprs() []sqlExpr {
 		{"interval", func(k int) string {
 			return fmt.Sprintf("(to_months((%s %% 500)::INTEGER - 250) + to_days((%s %% 5000)::INTEGER - 2500) + to_microseconds((%s %% 100000000000)::BIGINT - 50000000000))", h(k), h(k+1), h(k+2))
 		}},
-		{"time64", func(k int) string { return fmt.Sprintf("(TIME '00:00:00' + to_microseconds((%s %% 86400000000)::BIGINT))", h(k)) }},
+		{"time64", func(k int) string {
+			return fmt.Sprintf("(TIME '00:00:00' + to_microseconds((%s %% 86400000000)::BIGINT))", h(k))
+		}},
 		{"list", func(k int) string {
 			return fmt.Sprintf("CASE WHEN i %% 5 = 0 THEN [] ELSE [(%s %% 100)::INTEGER, NULL, (i %% 7)::INTEGER] END", h(k))
 		}},
@@ -133,7 +142,9 @@ func duckExprs() []sqlExpr {
 		{"struct", func(k int) string {
 			return fmt.Sprintf("{'a': (%s %% 1000)::INTEGER, 'b': 'x\"' || i::VARCHAR, 'c': [i, NULL], 'd': i::DOUBLE / 7, 'e': i %% 2 = 0}", h(k))
 		}},
-		{"enum", func(k int) string { return "(CASE i % 3 WHEN 0 THEN 'a' WHEN 1 THEN 'b\"c' ELSE 'é' END)::ENUM('a', 'b\"c', 'é')" }},
+		{"enum", func(k int) string {
+			return "(CASE i % 3 WHEN 0 THEN 'a' WHEN 1 THEN 'b\"c' ELSE 'é' END)::ENUM('a', 'b\"c', 'é')"
+		}},
 	}
 }
 
@@ -174,6 +185,14 @@ func (e *duckEnv) post(ep, q string) (int, []byte, error) {
 	req := httptest.NewRequest("POST", ep, bytes.NewReader(body))
 	req.Header.Set("Content-Type", "application/json")
 	resp, err := e.app.Test(req, 120000)
+	if err != nil && strings.Contains(err.Error(), "malformed HTTP") && e.c != nil {
+		// the response HEAD itself is corrupted: respHeader.Set(trailer) in the Arrow stream-writer goroutine races
+		// with fasthttp serialising the head into the same ResponseHeader.bufKV buffer
+		e.c.Fail("ipc-malformed:http-trailer-race", "HTTP response head corrupted: "+err.Error(), "endpoint="+ep+" source="+short(q, 600)+" (timing dependent: repeat tiny Arrow queries)")
+		req = httptest.NewRequest("POST", ep, bytes.NewReader(body))
+		req.Header.Set("Content-Type", "application/json")
+		resp, err = e.app.Test(req, 120000)
+	}
 	if err != nil {
 		return 0, nil, err
 	}
@@ -223,7 +242,14 @@ func duckCase(c *vh.Ctx, m *monitor, e *duckEnv, r *vh.Rand, exprs []sqlExpr, n 
 		c.Extra["duck_query_error"] = short(q, 300) + " => " + short(err.Error(), 300)
 		return
 	}
-	rs := newResultSet(q, schema, recs, keys)
+	fkeys := make([]string, len(keys)) // format monitors: UHUGEINT arrives as decimal(38,0), the HUGEINT class
+	for j, k := range keys {
+		fkeys[j] = k
+		if k == "uhugeint" {
+			fkeys[j] = "hugeint"
+		}
+	}
+	rs := newResultSet(q, schema, recs, fkeys)
 	defer rs.release()
 	c.Case(q, n > 0)
 	if len(recs) > 1 {
@@ -239,6 +265,7 @@ func duckCase(c *vh.Ctx, m *monitor, e *duckEnv, r *vh.Rand, exprs []sqlExpr, n 
 	if wide {
 		if txt, err := e.sqlTextTruth(q, len(exprs)); err == nil && len(txt) == rs.nrows {
 			for j, ct := range rs.cols {
+				ct.key = keys[j]
 				if !(ct.key == "hugeint" || ct.key == "uhugeint" || ct.key == "decimal" || ct.key == "uint64" || ct.key == "int64") {
 					continue
 				}
